@@ -31,7 +31,7 @@ RULE = ('prepared requests and responses over body sources {bytes, bytearray, te
 METHODS = ['GET', 'HEAD', 'POST', 'PUT', 'DELETE', 'OPTIONS', 'TRACE', 'PATCH', 'SEARCH', 'get', 'Head', 'search', 'Post']
 STATUSES = [100, 101, 102, 103, 150, 199, 200, 200, 200, 201, 202, 204, 205, 301, 304, 400, 404, 405, 413, 500, 503]
 SOURCES = ['bytes', 'bytearray', 'text', 'list', 'tuple', 'gen', 'iter', 'textlist', 'textgen', 'bytesio', 'file', 'bytesio-end', 'file-end', 'none']
-LENGTHS = [0, 1, 5, 300, 4095, 4096, 4097, 10000]
+LENGTHS = [0, 1, 5, 300, 4095, 4096, 4097, 10000] * 5 + [65535, 65536, 65537]
 OPS = [('prepare', 'compose'), ('prepare', 'compose', 'compose'), ('prepare', 'prepare', 'compose'), ('prepare', 'compose', 'prepare', 'compose'), ('prepare', 'compose', 'compose', 'prepare', 'compose')]
 
 
